@@ -122,11 +122,11 @@ def dump_fn(fn, out):
         out.write(" bb%d%s:\n" % (i, " (cleanup)" if b.get("cleanup") else ""))
         for s in b["s"]:
             if s["k"] == "assign":
-                out.write("    %s = %s   // L%d %s\n" % (place_str(s["p"], fn), rv_str(s["r"], fn), s.get("ln", 0), ",".join(s.get("mac", []))))
+                out.write("    %s = %s   // L%d %s\n" % (place_str(s["p"], fn), rv_str(s["r"], fn), s.get("ln", 0), (s.get("mac") or [""])[-1].split(":")[-1]))
             elif s["k"] == "setdiscr":
                 out.write("    discr(%s) = %d\n" % (place_str(s["p"], fn), s["variant"]))
         t = b["t"]
-        out.write("    %s   // L%d %s\n" % (term_str(t, fn), t.get("ln", 0), ",".join(t.get("mac", []))))
+        out.write("    %s   // L%d %s\n" % (term_str(t, fn), t.get("ln", 0), (t.get("mac") or [""])[-1].split(":")[-1]))
 
 
 # -----------------------------------------------------------------------------------------
